@@ -31,6 +31,9 @@ def scenario(ctx, seed, goal, phase, party, lose, record_controls=None):
     cell sent after the teardown started) that are dropped instead of delivered"""
     w = R.world("line4", seed)
     try:
+        # how the exit's outside sockets come into existence: both at once / only the first (the second is still being
+        # opened when the teardown arrives) / not at all before the teardown
+        w.transport_mode = ("auto", "half", "hold")[seed % 3]
         if seed % 2 == 1:
             # the exit also wants circuits of its own but knows no exit it could use: its do_circuits fails every round
             # (the periodic sweep must run nevertheless)
@@ -58,6 +61,9 @@ def scenario(ctx, seed, goal, phase, party, lose, record_controls=None):
                 w.deliver(d.seq)
                 n += 1
         w.create_circuit("o", goal)
+        if seed % 4 == 3:
+            # the application gave up waiting for this circuit: the future it was handed is cancelled (valid API use)
+            w.cancel_ready("o", 1)
         if phase == "half":
             # let exactly the first hop join, then stop delivering to the originator's next extend
             for _ in range(2):
